@@ -321,7 +321,9 @@ func (smf *SMFailed) UnmarshalXML(d *xml.Decoder, start xml.StartElement) error 
 				err = d.DecodeElement(&xnwf, &tt)
 				smf.StreamErrorGroup = &xnwf
 			default:
-				return errors.New("error is unknown")
+				// Not one of the conditions above. XEP-0198 uses stanza error conditions here (such as
+				// item-not-found for an unknown previd): the element is still a <failed/>
+				err = d.Skip()
 			}
 			if err != nil {
 				return err
